@@ -2,12 +2,17 @@
 //! where `verif_stats().footprint` is the allocator's own figure of what it holds from the OS.
 //!
 //!   c04 fp <seed> <reps> <shape> <order>
+//!   c04 fp <seed> <reps> steady <chunk> <mix> <policy> <primer> <delta>     (bounded live set, see workload.rs)
 //! output (same line format as alloc_probe, unit = 4 KiB pages):
-//!   B 0 / R <rep> <footprint pages> <failed calls> <VmSize pages above baseline> / S <peak live> <churned> <calls>
+//!   B 0 / R <index> <footprint pages> <failed calls> <VmSize pages above baseline> / S <peak live> <churned> <calls>
+//! The workload is bracketed by sysmon BEGIN/END markers (scenario 4): under `sysmon --inject 4:*:1:25:...` the
+//! kernel's answers to mremap / munmap are replaced by failures while the allocator trims and releases.
 use h_alloc::workload::*;
 use h_alloc::{install_crash_handlers, vmsize_pages, OP_KIND, PREFIX, WHERE, W_ALLOC_CALL};
 use std::sync::atomic::Ordering::Relaxed;
 use tiny_std::allocator::dlmalloc::Dlmalloc;
+#[path = "/verif/engines/sysmon/marker.rs"]
+mod marker;
 
 struct Private(Dlmalloc);
 impl Heap for Private {
@@ -31,6 +36,13 @@ fn main() {
         vh::inconclusive(&format!("unknown mode {}", a.mode));
         return;
     }
+    PREFIX.store(4, Relaxed);
+    OP_KIND.store(7, Relaxed);
+    install_crash_handlers();
+    if a.rest.first().map(String::as_str) == Some("steady") {
+        steady(&a);
+        return;
+    }
     let (Some(shape), Some(order)) = (
         a.rest.first().and_then(|s| shape_by_name(s)),
         a.rest.get(1).and_then(|s| order_by_name(s)),
@@ -39,15 +51,13 @@ fn main() {
         return;
     };
     // a crash in here can only come from the allocator (the workload touches its own blocks only)
-    PREFIX.store(4, Relaxed);
-    OP_KIND.store(7, Relaxed);
-    install_crash_handlers();
     let plan = plan(shape, a.seed, 1);
     let mut slots: Vec<Slot> = Vec::with_capacity(plan.len() + 16);
     let mut heap = Private(Dlmalloc::new());
     let mut total = RepStats::default();
     let base_vm = vmsize_pages();
     println!("B 0");
+    marker::begin(4, 0, 0);
     WHERE.store(W_ALLOC_CALL, Relaxed);
     for rep in 0..a.budget {
         let mut st = RepStats::default();
@@ -62,5 +72,52 @@ fn main() {
         let s = heap.0.verif_stats();
         println!("R {} {} {} {}", rep, s.footprint / 4096, st.failed, vmsize_pages().saturating_sub(base_vm));
     }
+    marker::end(4, 0, 0, 0, 0);
     println!("S {} {} {}", total.peak_live, total.churned, total.calls);
+}
+
+fn steady(a: &vh::Args) {
+    let g = |i: usize| a.rest.get(i).map(String::as_str).unwrap_or("");
+    let chunk: usize = g(1).parse().unwrap_or(0);
+    let mix: u8 = g(2).parse().unwrap_or(0);
+    let policy = order_by_name(g(3));
+    let primer = STEADY_PRIMERS.iter().position(|p| *p == g(4));
+    let delta: isize = g(5).parse().unwrap_or(0);
+    let (Some(policy), Some(primer)) = (policy, primer) else {
+        vh::inconclusive("bad steady arguments");
+        return;
+    };
+    if chunk < 32 || chunk % 16 != 0 {
+        vh::inconclusive("bad steady chunk");
+        return;
+    }
+    let p = Steady { chunk, mix, policy, primer: primer as u8, delta, live: steady_live(chunk), steps: steady_steps(chunk) };
+    let mut slots: Vec<Slot> = Vec::with_capacity(p.live + 16);
+    let mut extra: Vec<Slot> = Vec::with_capacity(STEADY_PRIMER_TRIES + 2);
+    let mut heap = Private(Dlmalloc::new());
+    let mut total = RepStats::default();
+    let base_vm = vmsize_pages();
+    let mut ix = 0u64;
+    println!("B 0");
+    marker::begin(4, 1, 0);
+    WHERE.store(W_ALLOC_CALL, Relaxed);
+    for rep in 0..a.budget {
+        let mut st = RepStats::default();
+        let mut sample = |h: &mut Private| {
+            let s = h.0.verif_stats();
+            println!("R {} {} 0 {}", ix, s.footprint / 4096, vmsize_pages().saturating_sub(base_vm));
+            ix += 1;
+        };
+        unsafe { steady_rep(&mut heap, &p, a.seed ^ rep, &mut slots, &mut extra, &mut st, &mut sample) };
+        total.peak_live = total.peak_live.max(st.peak_live);
+        total.churned += st.churned;
+        total.calls += st.calls;
+        total.failed += st.failed;
+        total.primed += st.primed;
+        let s = heap.0.verif_stats();
+        println!("R {} {} {} {}", ix, s.footprint / 4096, st.failed, vmsize_pages().saturating_sub(base_vm));
+        ix += 1;
+    }
+    marker::end(4, 1, 0, 0, 0);
+    println!("S {} {} {} {}", total.peak_live, total.churned, total.calls, total.primed);
 }
